@@ -675,7 +675,7 @@ def lmonStep (st : St) (toks : List String) (impl : String) : St × List (String
     | none => (st, [])
   | _ => (st, [])
 
-def step (st : St) (toks : List String) (impl : String) : St × LineResult :=
+def stepBase (st : St) (toks : List String) (impl : String) : St × LineResult :=
   match toks with
   | ["new", mode, fam, base, ones, pl, grace, ns] =>
     match fam.toNat?, parseHex base, ones.toNat?, pl.toNat?, grace.toNat?, ns.toNat? with
@@ -744,6 +744,32 @@ def step (st : St) (toks : List String) (impl : String) : St × LineResult :=
           | .lease s => stepLease { st1 with down := false } s toks' impl
           | _ => (st1, { modelObs := "badop" })
         (st2, { r with viols := r.viols ++ lv })
+
+/-- `restartgap <seed> put sK <pfx> <epoch>` / `restartgap <seed> del sK`: crash + restart during which another node
+    changes the store right after the Query of Start's load step.  The harness runs a plain restart with the same seed
+    first (to observe the node right after the load), then the restart with the change in the window.  On the model
+    this is `Session.startGap` / `Lease.startGap`, i.e. (theorems session_start_gap_replayed / lease_start_gap_replayed)
+    the restart followed by the remote change: the lines are replayed as exactly that, and the monitors see a restart
+    followed by a remote put / delete. -/
+def step (st : St) (toks : List String) (impl : String) : St × LineResult :=
+  match toks with
+  | "restartgap" :: seed :: rest =>
+    let inner : Option (List String × String) := match rest with
+      | ["put", k, a, e] => some (["remoteput", k, a, e], impl)
+      | ["del", k] => some (["remotedel", k], impl)
+      | _ => none
+    match inner, st.model with
+    | some (op, impl'), .session _ | some (op, impl'), .lease _ =>
+      if impl == "error" || impl == "down" || impl == "invalid" then
+        -- Start refused although nothing was made to fail
+        (st, { modelObs := if rest.head? == some "del" then "ok" else "ok -" })
+      else
+        let (st1, r1) := stepBase st ["restart", seed] "ok"
+        let (st2, r2) := stepBase st1 ["restart", seed] "ok"
+        let (st3, r3) := stepBase st2 op impl'
+        (st3, { modelObs := r3.modelObs, viols := r1.viols ++ r2.viols ++ r3.viols })
+    | _, _ => (st, { modelObs := "badop" })
+  | _ => stepBase st toks impl
 
 def component : Component := { σ := St, init := {}, step := step }
 
